@@ -7,6 +7,7 @@ import (
 	"context"
 	"fmt"
 	"strings"
+	"sync/atomic"
 	"time"
 
 	utls "github.com/refraction-networking/utls"
@@ -158,6 +159,12 @@ type client struct {
 	inLevel  int
 }
 
+// guard runs one API call under the watchdog. A call that is merely slow (loaded machine) is told apart from a
+// hang by a grace period: only a call still blocked after watchdog+grace counts as hung.
+const grace = 4 * time.Second
+
+var slowCalls atomic.Int64
+
 func guard(f func() error) (err error, hung bool) {
 	ch := make(chan error, 1)
 	go func() { ch <- f() }()
@@ -165,6 +172,12 @@ func guard(f func() error) (err error, hung bool) {
 	case err = <-ch:
 		return err, false
 	case <-time.After(watchdog):
+	}
+	select {
+	case err = <-ch:
+		slowCalls.Add(1)
+		return err, false
+	case <-time.After(grace):
 		return nil, true
 	}
 }
@@ -430,13 +443,9 @@ func runOne(c *vh.Ctx, pki *vh.TestPKI, sc scenario, rng interface{ Intn(int) in
 			case "close-mid":
 				goto closing
 			case "wrong-level":
-				lv := utls.QUICEncryptionLevel((cl.inLevel + 1) % 4)
-				if lv == utls.QUICEncryptionLevelEarly {
-					lv = utls.QUICEncryptionLevelHandshake
-					if cl.inLevel == 2 {
-						lv = utls.QUICEncryptionLevelInitial
-					}
-				}
+				// a client never reads at the Early level, so this is wrong whatever keys are installed
+				// (the runner's own idea of the current level can be stale when events are drained partially)
+				lv := utls.QUICEncryptionLevelEarly
 				cl.calls = append(cl.calls, fmt.Sprintf("HandleData(wrong level %d)", lv))
 				e, h := guard(func() error { return cl.q.HandleData(lv, []byte{1, 0, 0, 0}) })
 				if h {
@@ -679,7 +688,7 @@ func run(c *vh.Ctx) {
 			hangs++
 			hangSeen[sc.inj+"/"+sc.id]++
 			c.Fail("hang/"+strings.SplitN(cl.hung, "(", 2)[0]+"/"+sc.inj+"/"+sc.id,
-				"UQUICConn."+cl.hung+" did not return within the watchdog ("+watchdog.String()+")", input, "blocked", "returns")
+				"UQUICConn."+cl.hung+" did not return within "+(watchdog+grace).String(), input, "blocked", "returns")
 			continue
 		}
 		if res.srv != nil && res.srv.hung {
@@ -773,5 +782,6 @@ func run(c *vh.Ctx) {
 	}
 	c.Extra["runs"] = runs
 	c.Extra["hangs"] = hangs
+	c.Extra["slow_calls_over_2s"] = slowCalls.Load()
 	c.Extra["completed_handshakes"] = completed
 }
